@@ -388,6 +388,7 @@ def battery_pairs():
         ref = tbl(sch, "t_a", ["a_1"])
         ix = {"name": "ix_tb_0", "unique": False, "cols": ["a_1"]}
         uix = {"name": "ix_tb_1", "unique": True, "cols": ["a_1", "b_1"]}
+        pix = {"name": "ix_tb_p", "unique": False, "cols": ["a_1"], "where": "a_1 > 0"}
         uq = {"name": "uq_tb_0", "cols": ["b_1"]}
         fk = {"name": "fk_tb_0", "col": "a_1", "ref": "t_a", "ondelete": "CASCADE", "deferrable": True, "initially": "DEFERRED",
               "onupdate": None}
@@ -397,6 +398,8 @@ def battery_pairs():
                     ("add-unique", plain(), plain(uqs=[uq])), ("drop-unique", plain(uqs=[uq]), plain()),
                     ("add-fk", plain(), plain(fks=[fk])), ("drop-fk", plain(fks=[fk]), plain()),
                     ("add-column", plain(), tbl(sch, "t_b", ["a_1", "b_1", "c_x"])),
+                    ("drop-partial-index", plain(idxs=[pix]), plain()),
+                    ("drop-table-with-partial-index", plain(idxs=[pix, ix]), None),
                     ("without-rowid-drop", tbl(sch, "t_b", ["a_1"], without_rowid=True), None),
                     ("composite-pk-drop", with_pk(tbl(sch, "t_b", ["a_1", "b_1"]), ["b_1", "a_1", "id"], None), None),
                     ("named-composite-pk-drop", with_pk(tbl(sch, "t_b", ["a_1", "b_1"]), ["b_1", "id"], "pk_tb"), None)]
@@ -481,7 +484,7 @@ def autogen_case(ctx, pair, mode=None):
             if opts_after != opts_before:
                 diff = {k: (opts_before.get(k), opts_after.get(k)) for k in set(opts_before) | set(opts_after)
                         if opts_before.get(k) != opts_after.get(k)}
-                ctx.fail({"pair": pair, "where": "undo"}, "undo-options: reflected table options / primary key column order differ after upgrade+downgrade "
+                ctx.fail({"pair": pair, "where": "undo"}, "undo-options: reflected table options / primary key column order / partial-index predicates differ after upgrade+downgrade "
                          "(before, after): %s" % diff, impl={"up": [ro.op_json(o) for o in up.ops]}, tags=["undo"])
             if rest:
                 ctx.fail({"pair": pair, "where": "undo"}, "undo: after upgrade+downgrade autogenerate still sees differences from the start schema: %s"
